@@ -113,6 +113,10 @@ func runC02(c *Ctx) {
 	checkPartsAlias(c, "R02l")
 	c.Rule("R02r", ruleTextMatchedMarked, 2)
 	checkMatchedMarked(c, "R02r")
+	c.Rule("R02s", ruleTextNormaliseOwnSide, 2)
+	checkNormaliseOwnSide(c, "R02s")
+	c.Rule("R02t", ruleTextTrimSelfCutset, 1)
+	checkTrimSelfCutset(c, "R02t")
 	c.Rule("R02s", ruleTextBothParamsUsed, 20)
 	checkBothParamsUsed(c, "R02s")
 	c.Rule("R02q", "validity of sqlx.Has targets inside conjunctions: in the differ files, a conjunction (a && b && …) that consults at least one `ok := sqlx.Has(attrs, &v)` flag reads a field of a Has target only if that target's own flag is a positive conjunct of the same conjunction", 5)
